@@ -265,7 +265,27 @@ def make_engine(chk):
     return eng, hooks
 
 
-def serialize_then_deserialize(chk, eng, st, value, label, expect_reject=False, desc=""):
+def mutable_refs(st, v, seen=None):
+    """oids of the mutable containers (list / dict kinds) reachable from v"""
+    seen = set() if seen is None else seen
+    if isinstance(v, Opt):
+        return mutable_refs(st, v.val, seen)
+    if isinstance(v, tuple):
+        for x in v:
+            mutable_refs(st, x, seen)
+        return seen
+    if isinstance(v, Ref) and v.oid not in seen:
+        stor = st.get(v)
+        k = stor.get("__kind__")
+        if k in ("list", "dict", "glist", "gdict", "set") and v.cls != "tuple":
+            seen.add(v.oid)
+        for x in list(stor.get("items", ())) + [stor.get("elem")] + [y for _, y in stor.get("e", {}).values()] + [stor.get("vals"), stor.get("keys")]:
+            if x is not None:
+                mutable_refs(st, x, seen)
+    return seen
+
+
+def serialize_then_deserialize(chk, eng, st, value, label, expect_reject=False, desc="", prefix="C15"):
     P = eng.program
     cls = P.cls(SER)
     for a in inverse_axioms():
@@ -278,17 +298,26 @@ def serialize_then_deserialize(chk, eng, st, value, label, expect_reject=False, 
         n_paths += 1
         if k1 == "raise":
             ok_reject = isinstance(text, Ref) and getattr(text.cls, "name", "") == "SerDesError"
-            chk.prove(f"C15.{label}", s1.pc, z3.BoolVal(bool(expect_reject and ok_reject)), desc=desc or f"{label}: serialize accepts the value", sample=f"{label}: serialize raised {text}")
+            chk.prove(f"{prefix}.{label}", s1.pc, z3.BoolVal(bool(expect_reject and ok_reject)), desc=desc or f"{label}: serialize accepts the value", sample=f"{label}: serialize raised {text}")
             continue
         if expect_reject:
-            chk.prove(f"C15.{label}", s1.pc, F, desc=desc, sample=f"{label}: serialize returned instead of rejecting")
+            chk.prove(f"{prefix}.{label}", s1.pc, F, desc=desc, sample=f"{label}: serialize returned instead of rejecting")
             continue
-        chk.prove("C15.serialize.nonempty", s1.pc, z3.Length(zstr(text)) > 0, desc="the serialized text is never empty (used by C02 / C13: an empty payload would be dropped by the wire form)")
+        chk.prove(f"{prefix}.serialize.nonempty", s1.pc, z3.Length(zstr(text)) > 0, desc="the serialized text is never empty (used by C02 / C13: an empty payload would be dropped by the wire form)")
         for k2, back, s2 in eng.run(cls.find_method("deserialize"), [self_, text], st=s1):
             n_paths += 1
             goal = values_same(eng, s2, value, back) if k2 == "val" else F
-            chk.prove(f"C15.{label}", s2.pc, goal, desc=desc or f"{label}: deserialize(serialize(v)) is equal to v with the same type at every level",
+            chk.prove(f"{prefix}.{label}", s2.pc, goal, desc=desc or f"{label}: deserialize(serialize(v)) is equal to v with the same type at every level",
                       sample=f"{label}: path of {len(s2.pc)} conjuncts, outcome {k2}")
+            if k2 == "val":
+                # ownership: the caller owns what it gets - no mutable part of the result is retained by the serializer (a cache) or shared with the input
+                kept = set()
+                for _q, entries in s2.ghost.get("__memo__", {}).items():
+                    for _a, r_ in entries:
+                        kept |= mutable_refs(s2, r_)
+                shared = mutable_refs(s2, back) & (kept | mutable_refs(s2, value))
+                chk.prove(f"{prefix}.{label.rsplit('.', 1)[0]}.fresh_result", s2.pc, z3.BoolVal(not shared),
+                          desc="the deserialized value is a fresh object graph: no list / dict in it is retained by the serializer (e.g. in a cache) or shared with the serialized value, so mutating a delivered value cannot change what a later deserialization of the same text delivers")
     chk.paths += n_paths
     return n_paths
 
@@ -375,7 +404,7 @@ def install_ih(chk, eng):
     eng.summaries["serdes.SerDes.is_primitive"] = is_prim
 
 
-def containers(chk):
+def containers(chk, only=None, prefix="C15"):
     cases = {}
 
     def glist(kind):
@@ -423,6 +452,8 @@ def containers(chk):
     cases["batch_result"] = (batch, False)
     cases["reject.unsupported_type"] = (lambda eng, st, h: h.typed(st, "object", "v"), True)
     for label, (mk, reject) in cases.items():
+        if only is not None and label not in only:
+            continue
         eng, hooks = make_engine(chk)
         install_ih(chk, eng)
         eng.merging = label != "batch_result"  # the nested error dict must have a concrete key set on each path
@@ -431,7 +462,7 @@ def containers(chk):
         desc = ""
         if reject:
             desc = f"{label}: a value that cannot be reproduced exactly is rejected with a serialization error instead of being silently altered"
-        serialize_then_deserialize(chk, eng, st, v, ("dict.keys." + label.split(".")[2] if label.startswith("dict.keys.") else label) if reject else f"codec.{label}.rt", expect_reject=reject, desc=desc)
+        serialize_then_deserialize(chk, eng, st, v, ("dict.keys." + label.split(".")[2] if label.startswith("dict.keys.") else label) if reject else f"codec.{label}.rt", expect_reject=reject, desc=desc, prefix=prefix)
         for k_ in eng.stats:
             chk.engine_stats[k_] = chk.engine_stats.get(k_, 0) + eng.stats[k_]
 
